@@ -28,7 +28,8 @@ for th in (False, True):
     sx = '_T' if th else ''
     G = BIGG if th else ALLG
     T = 4 if th else 3
-    k = 6 if th else 1      # sample multiplier
+    k = 6 if th else 1      # sample multiplier (design-level model checking)
+    ke = 2 if th else 1     # sample multiplier of the behaviour-emitting configurations (every behaviour is replayed)
     # design-level model checking (invariants only)
     cfg('LatticeMC_C01' + sx, G, T, Q4, Q3, BOTH, FF, '{0}', CUTS, 1, 12 * k, '{"m11", "m00"}', 'FALSE', INV['C01'], exh='{"pair"}' if not th else '{"pair", "chain"}')
     cfg('LatticeMC_C02' + sx, G, T, Q4, Q3, BOTH, BOTH, '{0, 1, 2}', CUTS, 3, 1 * k, '{"m11", "m12"}', 'FALSE', INV['C02'])
@@ -40,12 +41,12 @@ for th in (False, True):
     cfg('LatticeMC_C08' + sx, G, T, Q4, Q3, BOTH, BOTH, '{0, 1, 2}', '{"none", "dist", "prob"}', 3, 1 * k, '{"m11"}', 'FALSE', INV['C08'])
     cfg('LatticeMC_C09' + sx, G, T, Q4, Q3, BOTH, BOTH, '{0, 1, 2}', CUTS, 3, 1 * k, '{"m11"}', 'FALSE', INV['C09'])
     # behaviours emitted for replay on the real matcher
-    cfg('LatticeMC_C01e' + sx, G, T, Q4, Q3, BOTH, FF, '{0}', CUTS, 1, 3 * k, '{"m11", "m00"}', 'TRUE', ['EmitBehaviour'])
-    cfg('LatticeMC_C06e' + sx, G, T, Q4, Q3, BOTH, TT, '{0}', CUTS, 1, 3 * k, '{"m11", "m10"}', 'TRUE', ['EmitBehaviour'])
-    cfg('LatticeMC_C07e' + sx, '{"line", "selfl", "tri"}' if not th else G, T, Q4, Q3, BOTH, BOTH, '{1, 2}', '{"none", "prob"}', 3, 1 * k, '{"m11"}', 'TRUE', ['EmitBehaviour'])
-    cfg('LatticeMC_C08e' + sx, '{"line", "selfl", "tri"}' if not th else G, T, Q4, Q3, BOTH, BOTH, '{0, 2}', '{"none", "dist"}', 3, 1 * k, '{"m11"}', 'TRUE', ['EmitBehaviour'])
+    cfg('LatticeMC_C01e' + sx, G, T, Q4, Q3, BOTH, FF, '{0}', CUTS, 1, 3 * ke, '{"m11", "m00"}', 'TRUE', ['EmitBehaviour'])
+    cfg('LatticeMC_C06e' + sx, G, T, Q4, Q3, BOTH, TT, '{0}', CUTS, 1, 3 * ke, '{"m11", "m10"}', 'TRUE', ['EmitBehaviour'])
+    cfg('LatticeMC_C07e' + sx, '{"line", "selfl", "tri"}' if not th else G, T, Q4, Q3, BOTH, BOTH, '{1, 2}', '{"none", "prob"}', 3, 1 * ke, '{"m11"}', 'TRUE', ['EmitBehaviour'])
+    cfg('LatticeMC_C08e' + sx, '{"line", "selfl", "tri"}' if not th else G, T, Q4, Q3, BOTH, BOTH, '{0, 2}', '{"none", "dist"}', 3, 1 * ke, '{"m11"}', 'TRUE', ['EmitBehaviour'])
     cfg('LatticeMC_C19' + sx, G, T, Q4, Q3, BOTH, FF, '{0, 1, 2}', CUTS, 1, 6 * k, '{"m11", "m00"}', 'FALSE', ['C19scoped'])
     cfg('LatticeMC_C19x' + sx, '{"selfl", "line", "tri"}', T, Q4, Q3, FF, TT, '{0}', '{"none", "dist", "prob"}', 1, 40 * k, '{"m11"}', 'FALSE', ['C19all'])
-    cfg('LatticeMC_C19e' + sx, '{"line", "selfl", "dead"}' if not th else G, T, Q4, Q3, BOTH, BOTH, '{0, 2}', CUTS, 2, 1 * k, '{"m11"}', 'TRUE', ['EmitBehaviour'], debugs='{TRUE}')
+    cfg('LatticeMC_C19e' + sx, '{"line", "selfl", "dead"}' if not th else G, T, Q4, Q3, BOTH, BOTH, '{0, 2}', CUTS, 2, 1 * ke, '{"m11"}', 'TRUE', ['EmitBehaviour'], debugs='{TRUE}')
     cfg('LatticeMC_C10' + sx, G, T, Q4, Q3, BOTH, BOTH, '{0, 1, 2}', CUTS, 1, 4 * k, '{"m11", "m00"}', 'FALSE', ['C10order'])
-    cfg('LatticeMC_ALLe' + sx, '{"line", "selfl", "dead"}' if not th else G, T, Q4, Q3, BOTH, BOTH, '{0, 1, 2}', '{"none", "dist", "prob"}', 3, 1 * k, '{"m11"}', 'TRUE', ['EmitBehaviour'])
+    cfg('LatticeMC_ALLe' + sx, '{"line", "selfl", "dead"}' if not th else G, T, Q4, Q3, BOTH, BOTH, '{0, 1, 2}', '{"none", "dist", "prob"}', 3, 1 * ke, '{"m11"}', 'TRUE', ['EmitBehaviour'])
